@@ -1075,6 +1075,9 @@ from ..twinspec import (NT, names_distinct, nt_attr, nt_callable, nt_exact_str, 
                         nt_len, nt_name, nt_tuple_subclass)
 
 
+py_type_of = z3.Function('py_type_of', Ref, Ref)
+
+
 @pycontract
 class IsNamedTupleClassPy(PyContract):
     module = 'optree/typing.py'
@@ -1124,7 +1127,7 @@ class IsNamedTupleClassPy(PyContract):
             nm = nt_name(n.args[1].value)
             return [(st, z3.If(nt_has(args[0], nm), nt_attr(args[0], nm), args[2]))]
         if f.name == 'type' and len(args) == 1:
-            return [(st, StructV('typeof', (('of', args[0]),)))]
+            return [(st, py_type_of(args[0]))]
         if f.name == 'callable':
             return [(st, nt_callable(args[0]))]
         if f.name == 'all':
@@ -1139,12 +1142,40 @@ class IsNamedTupleClassPy(PyContract):
 
     def identical(self, eng, a, b):
         for x, y in ((a, b), (b, a)):
-            if isinstance(x, StructV) and x.kind == 'typeof' and isinstance(y, BuiltinV):
+            if is_z3(x) and z3.is_app(x) and x.decl().name() == 'py_type_of' and isinstance(y, BuiltinV):
                 if y.name == 'tuple':
-                    return nt_exact_tuple(x.get('of'))
+                    return nt_exact_tuple(x.arg(0))
                 if y.name == 'str':
-                    return nt_exact_str(x.get('of'))
+                    return nt_exact_str(x.arg(0))
         return None
 
     def post(self, eng, st, entry, ret):
         return [('result-is-the-namedtuple-class-predicate', eng.truth(st, ret) == NT(z3.Const('cls', Ref)))]
+
+
+@pycontract
+class NamedTupleFieldsPy(IsNamedTupleClassPy):
+    """typing.namedtuple_fields(obj): with C = obj if obj is a type else type(obj): TypeError exactly when C is not a namedtuple
+    class (NT), otherwise C._fields.  is_namedtuple_class is used through its proved contract."""
+    function = 'namedtuple_fields'
+
+    def setup(self, eng, st, fn):
+        super().setup(eng, st, fn)
+        st.env.vars.pop('cls', None)
+        st.env.vars['obj'] = z3.Const('obj', Ref)
+
+    def call(self, eng, st, f, args, kwargs, n, stars):
+        if isinstance(f, FuncV) and f.name == 'is_namedtuple_class':
+            return [(st, NT(args[0]))]
+        return super().call(eng, st, f, args, kwargs, n, stars)
+
+    def C(self):
+        o = z3.Const('obj', Ref)
+        return z3.If(nt_is_type(o), o, py_type_of(o))
+
+    def raises(self, eng, st, entry):
+        return {'TypeError': z3.Not(NT(self.C()))}
+
+    def post(self, eng, st, entry, ret):
+        return [('returns-the-fields-of-the-class', ret == nt_attr(self.C(), nt_name('_fields'))),
+                ('only-for-namedtuple-classes', NT(self.C()))]
